@@ -213,6 +213,9 @@ def random_static_world(rng, n_user=None, max_methods=5, abstract=False, kinds_b
             if (j + base["reg"]) % 2 == 0 and not m.get("names"):
                 # the same signature written with other parameter names (no extra draw from rng)
                 m["names"] = [f"q{i + 1}" for i in range(len(m["pos"]))]
+            elif len(m["kwn"]) == 2:
+                # the same signature with its keyword-only parameters declared in the other order
+                m["kwn"], m["kwt"], m["kwreq"] = m["kwn"][::-1], m["kwt"][::-1], m["kwreq"][::-1]
         else:
             npos = rng.randint(1, maxpos) if rng.random() < 0.35 else maxpos
             types = [rng.randint(1, n) for _ in range(npos)]
